@@ -147,11 +147,11 @@ pub struct Tag { pub name: String, pub target: usize, pub annotated: bool }
 pub enum Head { Branch(String), Detached(usize) }
 
 #[derive(Clone, Copy, Debug, PartialEq, Eq, Hash)]
-pub enum WorkTree { Clean, ModifiedTracked, StagedNew, Untracked, IgnoredOnly, ModifiedAndIgnored, DeletedTracked, StagedModification, UntrackedInSubdir, EmptyUntrackedDir, IgnoredDir, StagedDeletion, StagedRename, ModeChange, StagedThenReverted, StagedModWorktreeAsHead, StagedNewThenDeleted, GitlinkMoved, GitlinkMovedStaged, FileNamedLikeTag, FileNamedHead }
+pub enum WorkTree { Clean, ModifiedTracked, StagedNew, Untracked, IgnoredOnly, ModifiedAndIgnored, DeletedTracked, StagedModification, UntrackedInSubdir, EmptyUntrackedDir, IgnoredDir, StagedDeletion, StagedRename, ModeChange, StagedThenReverted, StagedModWorktreeAsHead, StagedNewThenDeleted, GitlinkMoved, GitlinkMovedStaged, FileNamedLikeTag, FileNamedHead, TouchedTracked }
 
 impl WorkTree {
-    pub fn dirty(self) -> bool { !matches!(self, WorkTree::Clean | WorkTree::IgnoredOnly | WorkTree::EmptyUntrackedDir | WorkTree::IgnoredDir | WorkTree::StagedThenReverted) }
-    pub const ALL: [WorkTree; 21] = [WorkTree::Clean, WorkTree::ModifiedTracked, WorkTree::StagedNew, WorkTree::Untracked, WorkTree::IgnoredOnly, WorkTree::ModifiedAndIgnored, WorkTree::DeletedTracked, WorkTree::StagedModification, WorkTree::UntrackedInSubdir, WorkTree::EmptyUntrackedDir, WorkTree::IgnoredDir, WorkTree::StagedDeletion, WorkTree::StagedRename, WorkTree::ModeChange, WorkTree::StagedThenReverted, WorkTree::StagedModWorktreeAsHead, WorkTree::StagedNewThenDeleted, WorkTree::GitlinkMoved, WorkTree::GitlinkMovedStaged, WorkTree::FileNamedLikeTag, WorkTree::FileNamedHead];
+    pub fn dirty(self) -> bool { !matches!(self, WorkTree::Clean | WorkTree::IgnoredOnly | WorkTree::EmptyUntrackedDir | WorkTree::IgnoredDir | WorkTree::StagedThenReverted | WorkTree::TouchedTracked) }
+    pub const ALL: [WorkTree; 22] = [WorkTree::Clean, WorkTree::ModifiedTracked, WorkTree::StagedNew, WorkTree::Untracked, WorkTree::IgnoredOnly, WorkTree::ModifiedAndIgnored, WorkTree::DeletedTracked, WorkTree::StagedModification, WorkTree::UntrackedInSubdir, WorkTree::EmptyUntrackedDir, WorkTree::IgnoredDir, WorkTree::StagedDeletion, WorkTree::StagedRename, WorkTree::ModeChange, WorkTree::StagedThenReverted, WorkTree::StagedModWorktreeAsHead, WorkTree::StagedNewThenDeleted, WorkTree::GitlinkMoved, WorkTree::GitlinkMovedStaged, WorkTree::FileNamedLikeTag, WorkTree::FileNamedHead, WorkTree::TouchedTracked];
 }
 
 pub fn git_env() -> Vec<(String, String)> {
@@ -313,6 +313,7 @@ impl Repo {
             WorkTree::StagedDeletion => { git(&self.dir, &["rm", "-q", tracked_file], None); }
             WorkTree::StagedRename => { git(&self.dir, &["mv", tracked_file, "renamed"], None); }
             WorkTree::ModeChange => { use std::os::unix::fs::PermissionsExt; std::fs::set_permissions(p(tracked_file), std::fs::Permissions::from_mode(0o755)).unwrap(); }
+            WorkTree::TouchedTracked => {} // done after the conformance check below (which would refresh the index)
             // untracked files whose names are also revisions: `git <cmd> v1.0.0` / `git <cmd> HEAD` become ambiguous without `--`
             WorkTree::FileNamedLikeTag => { for n in ["v1.0.0", "v1.2.3", "1.5.0rc1", "v2.0.0"] { std::fs::write(p(n), "x").unwrap(); } }
             WorkTree::FileNamedHead => { std::fs::write(p("HEAD"), "x").unwrap(); }
@@ -332,6 +333,15 @@ impl Repo {
         // conformance with a command zerv does not use in this form
         let st = git(&self.dir, &["status", "--porcelain=v2", "--ignored=no", "--untracked-files=all"], None);
         if st.trim().is_empty() == w.dirty() { machinery_error(&format!("conformance: work tree {w:?} but git status says {st:?}")); }
+        if w == WorkTree::TouchedTracked {
+            // same bytes, new inode and an old mtime: the index's cached stat data is stale, the content is not changed.
+            // (no git command after this point: `git status` would refresh the index and hide the staleness)
+            let orig = std::fs::read(p(tracked_file)).unwrap();
+            std::fs::remove_file(p(tracked_file)).unwrap();
+            std::fs::write(p(tracked_file), &orig).unwrap();
+            let f = std::fs::OpenOptions::new().write(true).open(p(tracked_file)).unwrap();
+            let _ = f.set_modified(std::time::UNIX_EPOCH + std::time::Duration::from_secs(1_000_000_000));
+        }
     }
 
     pub fn reset_worktree(&self) {
